@@ -154,7 +154,7 @@ class MultiVector:
         """ Return the shape of the .values() attribute of this multivector. """
         if hasattr(self._values, 'shape'):
             return self._values.shape
-        elif hasattr(self._values[0], 'shape'):
+        elif len(self._values) and hasattr(self._values[0], 'shape'):
             return len(self), *self._values[0].shape
         else:
             return len(self),
